@@ -69,24 +69,34 @@ class ParallelMailboxLock:
         assert self.lock_file.minimum <= no < self.lock_file.maximum
         self.no = no - self.lock_file.minimum
         self.counter = None
+        # file locks belong to the process, they do not exclude its own tasks
+        self.task_lock = Lock()
 
     async def __aenter__(self):
-        while True:
-            try:
-                fcntl.lockf(self.lock_file.fd, fcntl.LOCK_NB | fcntl.LOCK_EX,
-                            1, self.no)
-            except OSError:
-                await sleep(0)
-                continue
-            break
-        data = os.pread(self.lock_file.fd, 1, self.no)
-        # the file may still be empty while its creator initializes it
-        self.counter = data[0] if data else 0
+        await self.task_lock.acquire()
+        try:
+            while True:
+                try:
+                    fcntl.lockf(self.lock_file.fd,
+                                fcntl.LOCK_NB | fcntl.LOCK_EX, 1, self.no)
+                except OSError:
+                    await sleep(0)
+                    continue
+                break
+            data = os.pread(self.lock_file.fd, 1, self.no)
+            # the file may still be empty while its creator initializes it
+            self.counter = data[0] if data else 0
+        except BaseException:
+            self.task_lock.release()
+            raise
 
     async def __aexit__(self, a, b, c):
-        os.pwrite(self.lock_file.fd, bytes((self.counter,)), self.no)
-        fcntl.lockf(self.lock_file.fd, fcntl.LOCK_UN, 1, self.no)
-        self.counter = None
+        try:
+            os.pwrite(self.lock_file.fd, bytes((self.counter,)), self.no)
+            fcntl.lockf(self.lock_file.fd, fcntl.LOCK_UN, 1, self.no)
+            self.counter = None
+        finally:
+            self.task_lock.release()
 
     def next_counter(self):
         ret = self.counter
